@@ -259,6 +259,52 @@ def explore_values(funcs, index, enums):
     return res
 
 
+NEWER_WORDS = ["-newer", "-anewer", "-cnewer"] + ["-newer%s%s" % (x, y) for x in "aBcm" for y in "aBcmt"] + ["-newerta", "-newera", "-newerab ", "-neweraa-", "-Newermm", "-newer mm", ""]
+
+
+def explore_newer_names(funcs, index, enums):
+    """C15: which timestamps a -newerXY spelling selects (parse_str_to_newer_args from MIR)"""
+    res = {"kind": "-newerXY names", "paths": 0, "checks": 0, "violations": [], "unsupported": {}, "samples": []}
+    m = Machine(funcs, index, enums, models, natives=natives(), max_steps=2000000)
+    w = z3.Int("word")
+    m.base_constraints = [w >= 0, w < len(NEWER_WORDS)]
+    m.pending = [[]]
+    t0 = time.time()
+    while m.pending:
+        m.reset_path(m.pending.pop())
+        try:
+            r = m.call("parse_str_to_newer_args", [RStr(sym=w, vocab=NEWER_WORDS)])
+        except RustPanic as e:
+            res["violations"].append({"what": "panic: " + str(e)[:80]}); res["paths"] += 1
+            continue
+        except Unsupported as e:
+            res["unsupported"][str(e)[:100]] = res["unsupported"].get(str(e)[:100], 0) + 1
+            continue
+        except PathAbort:
+            continue
+        res["paths"] += 1
+        s = z3.Solver()
+        for c in m.base_constraints + m.pc: s.add(c)
+        while s.check() == z3.sat:
+            mod = s.model()
+            i = mod.eval(w, model_completion=True).as_long()
+            s.add(w != i)
+            word = NEWER_WORDS[i]
+            res["checks"] += 1
+            mo = re.fullmatch(r"-newer([aBcm])([aBcmt])", word)
+            want = {"-newer": ("m", "m"), "-anewer": ("a", "m"), "-cnewer": ("c", "m")}.get(word) or (mo.groups() if mo else None)
+            got = None
+            if r.variant == "Some":
+                t = r.fields[0]
+                got = (text_of(m, t.fields[0]), text_of(m, t.fields[1]))
+            if got != want:
+                res["violations"].append({"what": "%r selects %r, expected %r" % (word, got, want)})
+    res["wall_s"] = round(time.time() - t0, 2)
+    res["solver_calls"] = m.stats["solver_calls"]
+    res["functions_executed"] = sorted(m.executed)
+    return res
+
+
 PAIR_VOCAB = PRIMS + NEWER_JUNK + OPERANDS + OTHERS
 
 
@@ -266,6 +312,10 @@ if __name__ == "__main__":
     n = int(sys.argv[1]) if len(sys.argv) > 1 else 2
     text = open(sys.argv[2]).read() if len(sys.argv) > 2 else None
     funcs, index, enums, secs, _ = loader.load(os.environ.get("FINDUTILS_REPO", "/repo"), text)
+    if n == -1:
+        r = explore_newer_names(funcs, index, enums)
+        print(json.dumps({k: r[k] for k in ("kind", "paths", "checks", "unsupported")}), len(r["violations"]), [v["what"] for v in r["violations"][:8]])
+        sys.exit(0)
     if n == 0:
         r = explore_values(funcs, index, enums)
         print(json.dumps({k: r[k] for k in ("kind", "paths", "checks", "unsupported", "samples")}), len(r["violations"]), [v["what"] for v in r["violations"][:8]])
